@@ -55,7 +55,8 @@ def gen(t, tier):
     z = t.pick([2, 3])
     n = 1 << z
     meta = t.pick([[1, 1], [1, 1], [2, 2], [3, 3]])
-    backend = t.weighted([({'type': 'file', 'layout': 'tc'}, 3), ({'type': 'file', 'layout': 'tms'}, 1), ({'type': 'sqlite'}, 2)])
+    backend = t.weighted([({'type': 'file', 'layout': 'tc'}, 3), ({'type': 'file', 'layout': 'tms'}, 1), ({'type': 'sqlite'}, 2),
+                          ({'type': 'file', 'layout': 'tc', 'link': 'symlink'}, 2)])
     fx, fy = t.choice(n), t.choice(n)
     pool = [[fx, fy, z]]
     for dx, dy in ((1, 0), (0, 1), (1, 1), (2, 0), (0, 2)):
@@ -64,7 +65,8 @@ def gen(t, tier):
             pool.append(c)
     pool = pool[:t.randint(2, len(pool))]
     sc = {'backend': copy.deepcopy(backend), 'level': z, 'meta_size': meta, 'meta_buffer': t.pick([0, 0, 2]) if meta != [1, 1] else 0,
-          'pool': pool, 'ops': [], 'frac': t.pick([0.0, 0.25, 0.9])}
+          'pool': pool, 'ops': [], 'frac': t.pick([0.0, 0.25, 0.9]),
+          'ocean': bool(backend.get('link')) or bool(t.chance(0.2))}
     nops = t.randint(6, 18 if tier == 'quick' else 30)
     for _ in range(nops):
         k = t.weighted([('req', 8), ('adv', 5), ('thr', 3), ('touch', 1), ('upfail', 1), ('seed', 1)])
@@ -159,7 +161,8 @@ def run(sc, tape):
     w.extra_patches.append((seeder, 'queue_class', SimQueue))
     w.extra_patches.append((seeder, 'Queue', SimQueueModule))
 
-    shared = {'log': [], 'gen': 0}
+    shared = {'log': [], 'gen': 0, 'ocean': sc.get('ocean', False)}
+    ocean = sc.get('ocean', False)
     upfail = [False]
     faults = {}
 
@@ -198,13 +201,14 @@ def run(sc, tape):
         if onsim:
             path = cache.tile_location(Tile(coord))
             try:
-                st = w.fs.stat(path, _yield=False)
+                # the tile's own write time: the link itself for linked single-colour tiles
+                st = w.fs.stat(path, follow_symlinks=False, _yield=False)
             except OSError:
                 return None
             from PIL import Image
             from io import BytesIO
             data = w.fs.read_file(path)
-            ok, g, msg = U.check_tile_image(Image.open(BytesIO(data)), coord)
+            ok, g, msg = U.check_tile_image(Image.open(BytesIO(data)), coord, ocean=ocean)
             if not ok:
                 raise Bad('wrong-tile-in-cache', 'cache holds a wrong image for %s: %s' % (coord, msg))
             return g, st.st_mtime
@@ -221,7 +225,7 @@ def run(sc, tape):
             return None
         from PIL import Image
         from io import BytesIO
-        ok, g, msg = U.check_tile_image(Image.open(BytesIO(row[0])), coord)
+        ok, g, msg = U.check_tile_image(Image.open(BytesIO(row[0])), coord, ocean=ocean)
         if not ok:
             raise Bad('wrong-tile-in-cache', 'cache holds a wrong image for %s: %s' % (coord, msg))
         ts = calendar.timegm(_time.strptime(row[1], '%Y-%m-%d %H:%M:%S'))
@@ -351,7 +355,7 @@ def run(sc, tape):
                 continue
             if a is None:
                 raise Bad('tile-destroyed', '%s: tile %s (generation %s) is gone from the cache' % (what, c, b[0]))
-            if not any(e['gen'] & 255 == a[0] and U.covers(e['bbox'], c) for e in ok_calls):
+            if not any((a[0] is None or e['gen'] & 255 == a[0]) and U.covers(e['bbox'], c) for e in ok_calls):
                 raise Bad('unattributable-rewrite', '%s: tile %s changed from %r to %r without a successful fetch covering it' % (
                     what, c, b, a))
         if exc is not None:
@@ -365,10 +369,12 @@ def run(sc, tape):
         for c, tile in zip(coords, tiles):
             if tile.source is None:
                 raise Bad('no-image', '%s: no image served for %s' % (what, c))
-            ok, g, msg = U.check_tile_image(tile.source.as_image(), c)
+            ok, g, msg = U.check_tile_image(tile.source.as_image(), c, ocean=ocean)
             if not ok:
                 raise Bad('wrong-image', '%s: wrong image served for %s: %s' % (what, c, msg))
             a = after[c]
+            if g is None:
+                continue        # ocean tile: constant colour, no generation to attribute
             if any(e['ok'] is False and U.covers(e['bbox'], c) for e in calls) and before[c] is not None:
                 # failed refresh: the old tile may be served instead
                 if g != before[c][0] and (a is None or g != a[0]):
@@ -429,7 +435,7 @@ def run(sc, tape):
             if a != b:
                 if a is None:
                     raise Bad('tile-destroyed', '%s: tile %s is gone after the seed task' % (what, c))
-                if not any(e['gen'] & 255 == a[0] and U.covers(e['bbox'], c) for e in ok_calls):
+                if not any((a[0] is None or e['gen'] & 255 == a[0]) and U.covers(e['bbox'], c) for e in ok_calls):
                     raise Bad('unattributable-rewrite', '%s: tile %s changed from %r to %r without a fetch' % (what, c, b, a))
 
     err = []
@@ -455,7 +461,9 @@ def run(sc, tape):
         if realdir is not None:
             shutil.rmtree(realdir, ignore_errors=True)
     probes['decided_cases'] = decided[0]
-    return {'violation': v, 'digest': C.digest_of(sc['backend'], sc['meta_size'], sc['ops'], sc['frac']),
+    if ocean:
+        probes['ocean_deployments'] = 1
+    return {'violation': v, 'digest': C.digest_of(sc['backend'], sc['meta_size'], sc['ops'], sc['frac'], ocean, sched.log if onsim else len(sched.log), [(e['gen'], e['ok'], e['bbox']) for e in shared['log']], round(clock.now, 6)),
             'nontrivial': decided[0] > 0, 'steps': sched.steps, 'sim_time': clock.now - 1.7e9, 'faults': faults,
             'probes': probes, 'unspecified': unspecified[0],
             'sample': {'deployment': name, 'ops': sc['ops'][:14], 'upstream_calls': len(shared['log'])}}
